@@ -141,11 +141,18 @@ Fixpoint rects_eqb (a b : list Rect) : bool :=
   | x :: a', y :: b' => same_rect x y && rects_eqb a' b'
   | _, _ => false
   end.
-(* [out] is an admissible result of split_rectangles rs r n: exactly the phase-1 list when phase 2
-   does not run, otherwise accepted by the checker *)
+(* same multiset of rectangles: the property promises no order of the returned list (which
+   rectangle the work queue of phase 1 visits first is the code's business) *)
+Fixpoint perm_rects (a b : list Rect) : bool :=
+  match a with
+  | [] => match b with [] => true | _ => false end
+  | x :: a' => match remove1 x b with Some b' => perm_rects a' b' | None => false end
+  end.
+(* [out] is an admissible result of split_rectangles rs r n: the rectangles of the phase-1 list, in any
+   order, when phase 2 does not run, otherwise accepted by the checker *)
 Definition split_rectangles_ok (rs : list Rect) (r : Qc) (n : Z) (out : list Rect) : bool :=
   match phase1 (phase1_fuel rs) rs r n with
-  | Ok p1 => if (Z.to_nat n <=? List.length p1)%nat then rects_eqb p1 out
+  | Ok p1 => if (Z.to_nat n <=? List.length p1)%nat then perm_rects p1 out
              else phase2_ok p1 out r (Z.to_nat n)
   | _ => false
   end.
